@@ -856,5 +856,88 @@ for _pid in ("C01", "C02", "C06", "C13"):
     PROPS[_pid]["coq_extra"] = ["Properties/BusLevel.v"]
     PROPS[_pid]["nontrivial"] = list(PROPS[_pid]["nontrivial"]) + ["bus:"]
 
+PROPS["C05"] = {'claimed': True,
+ 'coq': 'Properties/C05.v',
+ 'domains': ['fdl', 'apps'],
+ 'nontrivial': ['tx:',
+                'tag:ht:accept',
+                'tag:reply:',
+                'tag:gap:reply',
+                'tag:gap:no-response',
+                'tag:check:',
+                'tag:lt:reply',
+                'apps:call:',
+                'apps:event:',
+                'apps:tx'],
+ 'rule': 'fdl domain: cases = corpus (F1 F2 F3 F12 witnesses, API / parameter edge cases) + generated histories: station alone with responders, '
+         'environment rings of 1..3 masters that admit the station, hand-made token traffic (predecessor / stranger / own / invalid addresses), '
+         'adversarial injections (tokens, status requests / replies, SC, data replies, garbage, truncated and corrupted frames, two telegrams at '
+         'once) at all poll timings incl. periods above Tslot/4, PHY busy answers exact / never / late / random, set_offline / set_online in every '
+         'state, 0..3 scripted applications, stable two-master rings over many token visits with small HSA (complete GAP sweeps, late successor '
+         'inside the GAP, GAP replies ready / in-ring / not-ready / slave / wrong source / wrong destination / status != Ok), rings of 3..4 known '
+         'stations whose successor vanishes and returns; every case runs under a wall-clock watchdog (TIMEOUT); non-trivial = polls that transmit, '
+         'accept a token, deliver a reply / time-out or run a GAP branch. apps domain: the real FdlActiveStation polled through poll_multi with the '
+         'REAL applications attached - 0..4 of DpMaster (0..3 peripherals, Vec / fixed storage, Operate / Stop, image / parameter / configuration '
+         'sizes up to the frame limits 246 / 237 / 244), LiveList, DpScanner, () in any mixture - against scripted DP slaves and bare FDL stations '
+         'with 0..60 % noise (no reply, SC, random bytes, random responses, late and foreign replies), take_last_events after polls, set_offline / '
+         'set_online in between; the transcript is replayed on the extracted Fdl.poll any_app_ops and every transmitted byte, consumed count, taken '
+         'event and final application state is compared; non-trivial = callbacks made (send / reply / time-out per application kind), events taken',
+ 'trusted_base': ['hand model coq/Model/Fdl.v of src/fdl/active.rs (all of it: states, legality assertions, poll_inner branch for branch), on top of '
+                  "Telegram.v / Phy.v / TokenRing.v / Params.v; tied by differential execution poll by poll on this run's histories (all outputs, "
+                  'public getters and the private state through the verif-hooks fingerprint)',
+                  'gen/tr_fdl.py: transition legality tables, have_token / is_in_ring sets, dispatch, retry table and numeric constants regenerated '
+                  'from active.rs',
+                  'harness PHY / scripted applications / scripted environment of harness/src/fdl.rs; monitors of coq/Model/FdlOracle.v (extracted) '
+                  "run on the implementation's transcript",
+                  'coq/Model/AppsGlue.v (app_ops of DpMaster / LiveList / DpScanner / () and their sum, 256-byte transmit buffer) over the hand '
+                  'models DpMaster.v / Peripheral.v / LiveList.v / Scan.v; tied by the apps correspondence run (harness/src/apps.rs, '
+                  'ocaml/run_apps.ml): real station + real applications vs extracted model, poll by poll'],
+ 'technique': 'Coq proof of an inductive representation invariant of the Gallina model of the FDL active station (all states satisfying it, all '
+              'inputs) for abstract total applications AND for the models of the three real applications under the FdlApplication contract '
+              '(invariants DpRep / ll_ok / sc_ok, station-application tie AppsInv) + differential correspondence poll by poll (scripted '
+              "applications; real applications) + executable monitor on the implementation's transcript",
+ 'level_text': 'FULL Rep-based theorem for the FDL active station (not the partial per-state variant): C05_rep_init (Rep holds for a new station '
+               'with builder-valid parameters and after set_online / set_offline), C05_rep_step (from ANY state satisfying Rep, poll with any '
+               'tx_busy, any received byte list, any now in [0, 2^62) and any number - including zero - of total applications is Ok: no panic site '
+               'of the model is reached - legality assertions, unreachable!, unwrap, index, u8 / Instant / Duration arithmetic, a second '
+               'transmission - and neither the receive loop (fuel |rx| + 1) nor the application loop (|apps| iterations) is exhausted; Rep holds '
+               'again), C05_no_panic (all histories of polls / set_online / set_offline, by induction). All nine poll states are covered (Offline, '
+               'ListenToken, ActiveIdle, UseToken, ClaimToken, AwaitDataResponse, PassToken, CheckTokenPass, AwaitStatusResponse). APPLICATION SIDE '
+               '(full composition, not the _partial fallback): apps_total is replaced by apps_contract (callbacks total under the FdlApplication '
+               'contract) and discharged for the real applications: C05_dp_master_total / C05_dp_transmit_total / C05_dp_receive_reply_total (DpRep: '
+               'any number of slots and peripherals incl. none, any occupancy / cycle / operating state / retry counters / peripheral states; '
+               'transmit_telegram Ok at any time for any builder-valid parameters, slot loop within its fuel, no u8 overflow of the retry counter, '
+               'no FrameCountBit::cycle on Inactive, no event assertion; receive_reply Ok for the awaited address with ANY non-token non-request '
+               'telegram), C05_live_list_total, C05_scanner_total (cursor in 0..125; any station set), C05_any_app_total (their sum, any mixture in '
+               'one list), C05_rep_step_contract / C05_rep_step_with_apps (one poll from ANY Rep station and ANY application states satisfying '
+               'AppsInv: Ok, invariants again) and C05_no_panic_with_apps (+ _dp_master / _live_list / _scanner single-application instances): all '
+               'histories of polls, set_online / set_offline and invariant-keeping user calls between polls (C05_dp_user_calls / '
+               'C05_dp_user_calls_dense: take_last_events, enter_state, request_diagnostics, output image writes, add - also while a reply is '
+               'outstanding) return Ok. That only contract-conforming calls occur inside poll is proved, not assumed: AppsInv (while the station is '
+               'in AwaitDataResponse addr the application whose turn it is waits for addr) is carried through poll_inner using the C15 frame lemmas '
+               '(quiet) for the six callback-free do_* functions. C05_dp_oversize_output_panics / C05_dp_reply_outside_contract show the '
+               'preconditions are needed. C05_demo_run: a concrete 18-poll run asking all three applications. Model and implementation agree on '
+               'PANIC / no PANIC and on every output on every explored history (debug assertions, overflow checks, formatting logger), with scripted '
+               'and with the real applications; the implementation shows no panic.',
+ 'level_note': 'Trusted: Coq kernel, the regex translators, OCaml extraction + drivers, Rust harness. The hand models are validated, not verified, '
+               'against the crate (differential execution on the explored histories); the theorems are about the models of the FIXED tree (F1 F2 F3 '
+               'F12; F4 F6 F10 F11 F12 F13 F14 on the DP side). DpRep contains preconditions the crate does not document and does not check: '
+               'peripheral address < 128, output image <= 246 bytes, user parameters <= 237 bytes, configuration <= 244 bytes (beyond them '
+               'transmit_telegram panics at telegram.rs assert!(length_byte <= 249): reproduced on the crate with an output image of 247 bytes, '
+               'pb_harness run dp); storage with at most 256 occupied slots is enforced by add() itself. DpRep admits any occupancy pattern of the '
+               'storage; the composition (any_ok) uses DpRepD = DpRep + slots filled front to back (what new + add produce; sparse storages exist '
+               'only through the verif-hooks constructor), which is what makes DpMaster::add safe at any time, also while a reply is outstanding '
+               '(C05_dp_user_calls_dense; exercised by the apps correspondence: add while waiting). Logging side effects (F3 class) are covered by '
+               'the correspondence runs with the formatting logger, not by the model.',
+ 'partial_gap': 'set_passive / PassiveIdle and DpMaster::enter_stop / enter_clear (documented todo!()) are outside; extended-diagnostics iteration '
+                'inside log statements is C17; user calls that themselves panic by documentation (foreign handle, full fixed storage) are not part '
+                'of a history',
+ 'design_ref': 'DESIGN.md section 4, C05',
+ 'assumptions': ['builder-valid parameters; set_passive (documented todo!()) and constructor assertions excluded (DESIGN 4.0)',
+                 'now in [0, 2^62) microseconds (not necessarily monotone); the receive buffer holds bytes (0..255); the application list keeps its '
+                 'length',
+                 'abstract applications: total (apps_total); real applications: initial states satisfying DpRep / ll_ok / sc_ok (new objects do; '
+                 'peripherals within the frame limits), PHY transmit buffer of 256 bytes']}
+
 # C05 also covers the applications: an implementation panic / hang in these domains that the model does not predict is a C05 failure
 PROPS["C05"]["panic_domains"] = ["dp", "scan", "diag", "phyrx", "codec"]
